@@ -113,6 +113,9 @@ class Ctx:
         self.violations = []
         self.known_hits = []
         self.findings = load_findings()
+        # checks beyond the listed properties (bin/extra) report deviations under another word and keep their
+        # evidence apart: nothing they find is a violation of a listed property
+        self.extra = False
         os.makedirs(WORK, exist_ok=True)
         self.scratch = os.path.join(WORK, "%s-%d-%d" % (pid, os.getpid(), int(time.time())))
         os.makedirs(self.scratch, exist_ok=True)
@@ -306,14 +309,18 @@ class Ctx:
         ev["coverage"]["known_findings_hit"] = [k for k, _ in self.known_hits]
         if not self.cov["samples"]:
             self.cov["samples"].append("(no sample recorded)")
-        os.makedirs(os.path.join(ROOT, "evidence"), exist_ok=True)
-        with open(os.path.join(ROOT, "evidence", self.pid + ".json"), "w") as f:
+        evdir = os.path.join(ROOT, "extra", "evidence") if self.extra else os.path.join(ROOT, "evidence")
+        os.makedirs(evdir, exist_ok=True)
+        with open(os.path.join(evdir, self.pid + ".json"), "w") as f:
             json.dump(ev, f, indent=1)
         shutil.rmtree(self.scratch, ignore_errors=True)
         for k, w in self.known_hits:
             print("KNOWN-FINDING: property=%s %s [%s]" % (self.pid, w, k))
         for key, what, p in self.violations[:12]:
-            print("VIOLATION property=%s replay=%s  # %s: %s" % (self.pid, p, key, what))
+            if self.extra:
+                print("EXTRA-DEVIATION id=%s replay=%s  # %s: %s" % (self.pid, p, key, what))
+            else:
+                print("VIOLATION property=%s replay=%s  # %s: %s" % (self.pid, p, key, what))
         print("%s %s: states=%d transitions=%d traces=%d evaluations=%d nontrivial=%d violations=%d wall=%.1fs"
               % (self.pid, self.tier, self.cov["states"], self.cov["transitions"],
                  self.cov["traces_validated_against_impl"], self.cov["evaluations"],
